@@ -40,6 +40,7 @@ def step1 (s : St) (line : String) : St × String :=
         if j == idx then { sh with pts := news.foldl (fun acc p => upsertPt p acc) sh.pts } else sh
       ({ s with shards := shards }, "ok")
     | _, _, _, _, _ => (s, "bad-op")
+  | ["trunc", _] => (s, "ok")     -- truncation stops new points; what a group holds is still read
   | ["down", i] =>
     match i.toNat? with
     | some i => if i ≥ s.n then (s, "bad-op") else ({ s with status := s.status.set i .down }, "ok")
